@@ -102,6 +102,26 @@ SegTouches(a, b, cell) ==
     /\ Max(a[2], b[2]) >= 2 * cell[2] /\ Min(a[2], b[2]) <= 2 * cell[2] + 2
     /\ ~(\A q \in Corners(cell) : Cross(a, b, q) > 0)
     /\ ~(\A q \in Corners(cell) : Cross(a, b, q) < 0)
+\* the segment passes through the OPEN cell and through none of its corners.  (Mapped vertices are cell corners: vertical and
+\* horizontal segments run along cell borders and never enter an open cell; any other segment spans whole columns, so the
+\* column test says whether the part of the line inside the cell belongs to the segment.)
+SegCrossesOpen(a, b, cell) ==
+    /\ a[1] # b[1] /\ Min(a[1], b[1]) <= 2 * cell[1] /\ 2 * cell[1] + 2 <= Max(a[1], b[1])
+    /\ \E q \in Corners(cell) : Cross(a, b, q) > 0
+    /\ \E q \in Corners(cell) : Cross(a, b, q) < 0
+    /\ \A q \in Corners(cell) : Cross(a, b, q) # 0
+\* two different edges of the polygon lie on top of each other (the mapped shape has collapsed somewhere)
+Overlapping(a, b, c, d) ==
+    /\ a # b /\ c # d /\ Cross(a, b, c) = 0 /\ Cross(a, b, d) = 0
+    /\ IF a[1] # b[1] THEN Max(Min(a[1], b[1]), Min(c[1], d[1])) < Min(Max(a[1], b[1]), Max(c[1], d[1]))
+                      ELSE Max(Min(a[2], b[2]), Min(c[2], d[2])) < Min(Max(a[2], b[2]), Max(c[2], d[2]))
+Collapsed(rings) == \E x, y \in SegIdx(rings) : x # y /\ Overlapping(rings[x[1]][x[2]], rings[x[1]][x[2] + 1], rings[y[1]][y[2]], rings[y[1]][y[2] + 1])
+\* the open cell certainly meets the INTERIOR of the polygon: an edge runs through the open cell (one of its two sides is
+\* inside -- even-odd -- unless edges lie on top of each other).  An edge that enters through a corner of the cell is left
+\* out: there GDAL's all_touched line walk can skip the cell (probed: 24 of 109 501 such cells), the statement does not say.
+CertainTouch(mp, cell) ==
+    /\ \E x \in SegIdx(mp.rings) : SegCrossesOpen(mp.rings[x[1]][x[2]], mp.rings[x[1]][x[2] + 1], cell)
+    /\ ~Collapsed(mp.rings)
 \* closed cell meets the closed polygon
 PartTouches(mp, cell) ==
     \/ \E x \in SegIdx(mp.rings) : SegTouches(mp.rings[x[1]][x[2]], mp.rings[x[1]][x[2] + 1], cell)
@@ -120,8 +140,11 @@ PartNear(mp, cell) ==
 (* Plain mode, areal geometry: the centre rule; a centre exactly on an     *)
 (* edge of the mapped shape is undecided; parts of a multipolygon whose    *)
 (* images overlap are undecided where they overlap.  all_touched: cells    *)
-(* with the centre inside stay in, other cells the closed mapped shape     *)
-(* meets may be added, the rest stays out.                                 *)
+(* with the centre inside stay in; so are cells whose OPEN square meets    *)
+(* the interior of the shape (CertainTouch) -- the painter's order applies *)
+(* to the all_touched run with these cells: the last geometry that touches *)
+(* a cell for certain owns it; cells that merely meet the boundary may be  *)
+(* added; the rest stays out.                                              *)
 (* Lines and points have no interior: read literally the centre rule could *)
 (* never mark a cell, while rasterio burns a Bresenham-style pixel chain   *)
 (* (which can even contain a pixel the exact line does not meet).  The     *)
@@ -141,6 +164,7 @@ StatusM(mparts, areal, at, cell) ==
     IF ~areal THEN (IF \E k \in DOMAIN mparts : PartNear(mparts[k], cell) THEN "either" ELSE "out")
     ELSE LET plain == ArealStatus(mparts, cell) IN
          IF ~at \/ plain = "in" THEN plain
+         ELSE IF \E k \in DOMAIN mparts : CertainTouch(mparts[k], cell) THEN "in"
          ELSE IF Touched(mparts, cell) THEN "either" ELSE "out"
 StatusR(tp, rr, g, at, cell) == StatusM(MParts(tp, rr, g), Areal(g), at, cell)
 \* over both readings of the bin lookup (they differ only when a vertex lies strictly inside the last bin)
